@@ -1424,6 +1424,7 @@ func c18e(c *Ctx) {
 // ---- C18.f ------------------------------------------------------------------------------
 
 func c18f(c *Ctx) {
+	c18fEnvErrors(c)
 	n := 0
 	for _, fn := range c.W.FuncsOf("parser") {
 		if isTestFunc(c.W, fn) {
@@ -2275,4 +2276,103 @@ func c18i(c *Ctx) {
 		c.Check(sh != nil && sh.f == slot && sh.g == "Type" && sh.param == 1, fn.Name()+"/reads-its-slot", c.W.FuncPos(fn), fn.Name()+" compares "+slot+".Type with its argument", fn.Name()+" does not compare the type of "+slot+" with its argument (it is read as doing so wherever it is called)")
 	}
 	c.Check(np >= 3, "slot-predicates", "-", fmt.Sprintf("%d slot predicates", np), fmt.Sprintf("only %d slot predicates found", np))
+}
+
+// c18fEnvErrors: lint mode has no fonts and no switches. An error the parser raises itself
+// (NewParseError / NewRangeParseError) on a branch whose condition is computed from
+// environment data — the font table, the command-line font and line length, the switches —
+// is an environment error and must sit under the enableEnvironmentErrors flag, or lint mode
+// rejects programs that normal mode accepts. Taint: loads of the environment fields of the
+// Parser, propagated through arithmetic, comparisons, lookups, field reads, merges and call
+// results (a call with a tainted argument or receiver returns tainted values).
+func c18fEnvErrors(c *Ctx) {
+	envFields := map[string]bool{"fonts": true, "defaultFontID": true, "maxLineLength": true, "compileSwitches": true, "fontConfigFilepath": true}
+	nErr, nEnv := 0, 0
+	for _, fn := range c.W.FuncsOf("parser") {
+		if isTestFunc(c.W, fn) || len(fn.Blocks) == 0 {
+			continue
+		}
+		taint := map[ssa.Value]bool{}
+		instrs(fn, func(in ssa.Instruction) {
+			if u, ok := in.(*ssa.UnOp); ok && u.Op == token.MUL {
+				if _, t, f, ok := fieldAddrOf(u.X); ok && typeIs(t, "parser", "Parser") && envFields[f] {
+					taint[u] = true
+				}
+			}
+		})
+		if len(taint) == 0 {
+			continue
+		}
+		for changed := true; changed; {
+			changed = false
+			instrs(fn, func(in ssa.Instruction) {
+				v, ok := in.(ssa.Value)
+				if !ok || taint[v] {
+					return
+				}
+				if _, isErr := v.(*ssa.Call); isErr && isErrorCtorCall(v.(*ssa.Call)) {
+					return
+				}
+				for _, op := range in.Operands(nil) {
+					if op != nil && *op != nil && taint[*op] {
+						taint[v] = true
+						changed = true
+						return
+					}
+				}
+			})
+		}
+		fk := c.W.FuncKey(fn)
+		for i, r := range returnsOf(fn) {
+			if isSuccessReturn(r) || len(r.Results) == 0 {
+				continue
+			}
+			call, isCall := r.Results[len(r.Results)-1].(*ssa.Call)
+			if !isCall || !isErrorCtorCall(call) {
+				continue
+			}
+			nErr++
+			// branch conditions that decide whether this return is reached
+			envCond := ""
+			for d := r.Block().Idom(); d != nil; d = d.Idom() {
+				if len(d.Instrs) == 0 {
+					continue
+				}
+				ifi, isIf := d.Instrs[len(d.Instrs)-1].(*ssa.If)
+				if !isIf || len(d.Succs) != 2 {
+					continue
+				}
+				// decides: only one of the two branches can lead to r (without coming round to d again)
+				reaches := func(from *ssa.BasicBlock) bool {
+					seen := map[*ssa.BasicBlock]bool{d: true}
+					stack := []*ssa.BasicBlock{from}
+					for len(stack) > 0 {
+						x := stack[len(stack)-1]
+						stack = stack[:len(stack)-1]
+						if x == r.Block() {
+							return true
+						}
+						if seen[x] {
+							continue
+						}
+						seen[x] = true
+						stack = append(stack, x.Succs...)
+					}
+					return false
+				}
+				if reaches(d.Succs[0]) == reaches(d.Succs[1]) {
+					continue
+				}
+				if taint[ifi.Cond] {
+					envCond = pretty(c.term(fn, ifi.Cond))
+				}
+			}
+			if envCond == "" {
+				continue
+			}
+			nEnv++
+			c.Check(hasLit(c.mustLits(fn, r.Block()), "+$0.enableEnvironmentErrors"), fmt.Sprintf("%s/env-error-under-flag#%d", fk, i), c.W.Pos(r.Pos()), "an error that depends on fonts / switches is raised only in normal mode", fn.Name()+" raises an error on a condition computed from environment data ("+envCond+") without testing enableEnvironmentErrors: lint mode, which has no fonts and no switches, would reject a program that normal mode accepts")
+		}
+	}
+	c.Check(nEnv >= 3, "env-errors/scanned", "-", fmt.Sprintf("%d own errors of the parser examined, %d of them on environment-dependent conditions", nErr, nEnv), fmt.Sprintf("expected at least 3 environment-dependent errors, found %d", nEnv))
 }
